@@ -10,6 +10,7 @@ pub mod parsers;
 pub mod sched;
 pub mod rtrnet;
 pub mod clibin;
+pub mod crash;
 pub mod c01;
 pub mod c02;
 pub mod c03;
